@@ -6,6 +6,7 @@ import (
 	"encoding/json"
 	"fmt"
 	"os"
+	"sort"
 	"strings"
 	"testing"
 	"time"
@@ -217,6 +218,19 @@ func wrongCode(e string, k int, variant int, salt uint64, window []string) strin
 type traceResult struct {
 	vec trace.Vector
 	str []trace.StrEvent
+	dur []int64 // durations handed to time.Sleep / the timer constructors during the call, sorted
+}
+
+func sameDur(a, b []int64) bool {
+	if len(a) != len(b) {
+		return false
+	}
+	for i := range a {
+		if a[i] != b[i] {
+			return false
+		}
+	}
+	return true
 }
 
 // ordering comparisons (assembly, no compiler event) are observed at the two library
@@ -242,12 +256,15 @@ func init() {
 func traced(f func()) traceResult {
 	cmpEvents = cmpEvents[:0]
 	cmpOn = true
+	durStart()
 	trace.Start()
 	f()
 	v, s, _ := trace.Stop()
+	d := durStop()
 	cmpOn = false
 	s = append(s, cmpEvents...)
-	return traceResult{v, s}
+	sort.Slice(d, func(i, j int) bool { return d[i] < d[j] })
+	return traceResult{v, s, d}
 }
 
 // tainted reports a string-comparison operand that carries the expected code, an
@@ -305,12 +322,31 @@ func checkC09(c c09Case) verdict {
 			if t := tainted(tr.str, c.public(code), window, digests); t != "" {
 				return bad(true, labels, "%s: %s (submitted %s, expected %s, %d leading characters correct)", c.Entry, t, code, e, k)
 			}
+			if !sameDur(tr.dur, base.dur) && durationsDependOnCode(c, code, string(un)) {
+				return bad(true, labels, "%s: the time the call spends asleep depends on how many leading characters are correct: with %d correct (submitted %s, expected %s) the durations handed to time.Sleep / timers are %v ns, with none correct %v ns — stable for each code over six repetitions", c.Entry, k, code, e, tr.dur, base.dur)
+			}
 			if tr.vec != base.vec && consistentlyDiffers(c, code, string(un)) {
 				return bad(true, labels, "%s: the comparison trace depends on how many leading characters are correct: %d correct (submitted %s, expected %s) gives events %v, none correct gives %v (kinds %v)", c.Entry, k, code, e, tr.vec, base.vec, trace.Kinds)
 			}
 		}
 	}
 	return ok(true, labels...)
+}
+
+// durationsDependOnCode re-measures six times: the durations of the reference code must be the same in two
+// consecutive runs (a deadline computed from the wall clock, or a background timer falling into the window, is not)
+// while those of the code under test differ from them every time.
+func durationsDependOnCode(c c09Case, code, baseCode string) bool {
+	bc, cc := c.prepare(baseCode), c.prepare(code)
+	for i := 0; i < 6; i++ {
+		b1 := traced(func() { bc() })
+		t := traced(func() { cc() })
+		b2 := traced(func() { bc() })
+		if !sameDur(b1.dur, b2.dur) || sameDur(t.dur, b1.dur) {
+			return false
+		}
+	}
+	return true
 }
 
 // consistentlyDiffers re-measures both traces up to five times: allocator / pool state can
@@ -328,7 +364,7 @@ func consistentlyDiffers(c c09Case, code, baseCode string) bool {
 }
 
 var c09Main = newPart("C09", "traces",
-	"rapid: validation entry points {ValidateHOTP, ValidateTOTP, ValidateOCRA, ValidateOTPWasm (js/wasm file compiled natively through an overlay), the binding's own validateHOTP / validateTOTP (wasm/main.go compiled natively against a stand-in syscall/js and called through the functions it registers), REST /hotp/validate, /totp/validate, /ocra/validate driven in-process} x keys x counters/instants x digits 6..10 (OCRA: registered suites) x hashes x windows 0..3; for each, the family of wrong codes sharing exactly k = 0..d-1 leading characters with the expected code E (two tails each), traced with the compiler's libFuzzer comparison instrumentation of the library, the REST layer, bytes, strings, slices, reflect, crypto/subtle and crypto/internal/fips140/subtle; oracles: (A) no string-comparison event has an operand equal to E, to any acceptable code of the window, to a >=3-character fragment of one that the submitted code does not contain, or to the HMAC digest (raw/hex); (B) the vector of event counts per kind is identical for all k and equal to that of a wrong code with no matching position; a planted == and a planted early-exit byte loop must trip (A) and (B) before every run; non-trivial = every case (each has k >= 1 members)",
+	"rapid: validation entry points {ValidateHOTP, ValidateTOTP, ValidateOCRA, ValidateOTPWasm (js/wasm file compiled natively through an overlay), the binding's own validateHOTP / validateTOTP (wasm/main.go compiled natively against a stand-in syscall/js and called through the functions it registers), REST /hotp/validate, /totp/validate, /ocra/validate driven in-process} x keys x counters/instants x digits 6..10 (OCRA: registered suites) x hashes x windows 0..3; for each, the family of wrong codes sharing exactly k = 0..d-1 leading characters with the expected code E (two tails each), traced with the compiler's libFuzzer comparison instrumentation of the library, the REST layer, bytes, strings, slices, reflect, crypto/subtle and crypto/internal/fips140/subtle; oracles: (A) no string-comparison event has an operand equal to E, to any acceptable code of the window, to a >=3-character fragment of one that the submitted code does not contain, or to the HMAC digest (raw/hex); (B) the vector of event counts per kind is identical for all k and equal to that of a wrong code with no matching position; (C) the durations handed to time.Sleep and to the timer constructors during the call (hook added to package time by the build overlay) are the same for all k, judged only when the reference code's durations are stable over repeated runs; a planted ==, a planted early-exit byte loop, a planted 3 us sleep and a planted 7 us timer must be seen before every run; non-trivial = every case (each has k >= 1 members)",
 	checkC09)
 
 func genC09(t *rapid.T) c09Case {
@@ -411,6 +447,15 @@ func canaryCheck() error {
 	c5 := traced(func() { canary.CT([]byte("7391611111"), []byte(e)) })
 	if c0.vec != c5.vec || tainted(c0.str, "1111111111", []string{e}, nil) != "" {
 		return fmt.Errorf("the constant-time comparison trips the oracles (%v vs %v)", c0.vec, c5.vec)
+	}
+	if sleepHookAvailable {
+		// a planted sleep and a planted timer must be observed with their durations, and only those
+		s1 := traced(func() { time.Sleep(3 * time.Microsecond) })
+		s2 := traced(func() { tm := time.NewTimer(7 * time.Microsecond); <-tm.C })
+		s3 := traced(func() { canary.CT([]byte("1111111111"), []byte(e)) })
+		if len(s1.dur) != 1 || s1.dur[0] != 3000 || len(s2.dur) != 1 || s2.dur[0] != 7000 || len(s3.dur) != 0 {
+			return fmt.Errorf("planted time.Sleep(3us) / NewTimer(7us) / no sleep were observed as %v / %v / %v", s1.dur, s2.dur, s3.dur)
+		}
 	}
 	var sum uint64
 	for _, x := range c0.vec {
